@@ -305,6 +305,15 @@ def catalogue(rng, inp):
         ("PPM_DECODER.bool", lambda: P.PPM_DECODER(code.data.astype(bool), M), True),
         ("DAC.bool", lambda: D.DAC(b.astype(bool), 0.0, 1.0, "nrz"), True),
         ("SDD.arr", lambda: P.SDD(wave_n.signal + wave_n.noise, M), True),
+        ("SDD.es_nonoise", lambda: P.SDD(wave, M), True),
+        ("ppm.DSP.soft.nonoise", lambda: P.DSP(wave, M, "soft"), True),
+        ("ppm.DSP.hard.th.nonoise", lambda: P.DSP(wave, M, "hard", 0.5), False),
+        ("SAMPLER.nonoise", lambda: D.SAMPLER(wave, sps // 2), True),
+        ("LPF.nonoise", lambda: D.LPF(wave, 0.3 * fs), True),
+        ("ADC.nonoise", lambda: D.ADC(wave, n=5), True),
+        ("BPF.nonoise", lambda: D.BPF(o1c, 0.4 * fs), True),
+        ("PD.nonoise", lambda: D.PD(o1c, 0.4 * fs, 1.0, 300, 50, "ase-only"), True),
+        ("MZM.nonoise", lambda: D.MZM(o1c, wave.signal[: o1c.len()] if wave.len() >= o1c.len() else 1.0, bias=0.3, Vpi=4.0), True),
         ("GET_EYE.arr", lambda: D.GET_EYE(v.copy() if False else v, sps_resamp=32), False),
         ("ppm.DSP.arr", lambda: P.DSP(wave.signal, M, "soft"), True),
         ("BS.u8", lambda: T.binary_sequence(slots), True),
